@@ -395,7 +395,7 @@ package logqlmetric
 // container/heap calls Less/Swap with indices in range and Pop on a non-empty heap; Push receives
 // the value given to heap.Push (assumed contract of the library towards its heap.Interface).
 //@ func (*sampleHeap).Min
-//@   requires h != nil && len(h.elements) > 0
+//@   requires len(h.elements) > 0
 //@   modifies nothing
 //@ func (*sampleHeap).Len
 //@   modifies nothing
@@ -419,3 +419,32 @@ package logqlmetric
 // Rewriting a label set touches that set only.
 //@ iface AggregatedLabels.Replace
 //@   modifies self.*
+
+// ---- C11: topk / bottomk / sort / sort_desc.
+//
+// Every input sample is grouped by the key of its retained labels; with a negative limit (sort)
+// every sample is kept; otherwise a sample enters the group's heap while it is not full, and
+// replaces the current extreme only when it beats it. What is kept is the input sample itself
+// (labels intact), and the step's timestamp is passed on.
+//@ func (*vectorAggHeapIterator).Next
+//@   assume_pure i.grouper
+//@   assume_pure i.less
+//@   capture nx = call(i.iter.Next, 0)
+//@   capture gr = call(i.grouper, 0)
+//@   capture ky = call(metric.Key, 0)
+//@   capture ps0 = call(heap.Push, 0)
+//@   capture mn = call(g.heap.Min, 0)
+//@   capture ls = call(i.less, 0)
+//@   capture pp = call(heap.Pop, 0)
+//@   capture ps1 = call(heap.Push, 1)
+//@   modifies *
+//@   ensures[ends-with-source] nx_called && ret0 == nx_r0
+//@   ensures[timestamp-passed-on] ret0 ==> r.Timestamp == step.Timestamp
+//@   loop 0 modifies *
+//@   loop 0 invariant result != nil && i.limit != 0 && r.Timestamp == step.Timestamp
+//@   loop 1 invariant r.Timestamp == step.Timestamp
+//@   loop 0 body_ensures[grouped-by-retained-labels] gr_called && same(gr_a0, s.Set) && same(gr_a1, i.groupLabels) && ky_called && same(ky_recv, gr_r0)
+//@   loop 0 body_ensures[sort-keeps-every-sample] i.limit < 0 ==> !ps0_called && !pp_called && !ps1_called
+//@   loop 0 body_ensures[enters-while-not-full] ps0_called ==> i.limit > 0 && typeis[Sample](ps0_a1) && same(as[Sample](ps0_a1), s)
+//@   loop 0 body_ensures[replaces-only-when-it-beats-the-extreme] pp_called ==> i.limit > 0 && mn_called && ls_called && ls_r0 && same(ls_a0, s) && same(ls_a1, mn_r0) && ps1_called && typeis[Sample](ps1_a1) && same(as[Sample](ps1_a1), s)
+//@   loop 0 body_ensures[otherwise-dropped] i.limit > 0 && !ps0_called && !pp_called ==> ls_called && !ls_r0 && !ps1_called
